@@ -332,6 +332,11 @@ C19Conc(late) ==
     LET me == C19Http(<<"udp", "", FALSE>>, 3, 443, T4)
         other == [me.run EXCEPT !.max_ttl = 2, !.query = "target=" \o T4 \o "&protocol=udp&tcp-method=&port=443&max-ttl=2&timeout=120&traceroute-queries=1&e2e-queries=0"] IN
     [me EXCEPT !.id = @ \o "/concurrent_other_max_ttl/" \o ToString(late), !.label = @ \o "/concurrent_other_max_ttl", !.run.start_delay_us = late] @@ [mix |-> <<other>>]
+\* C16: IDENTICAL requests served at the same time (a retry, a second poller): every answer has its own fresh identifiers
+C16Same(pr, n, late) ==
+    LET me == C19Http(pr, 3, 443, T4) IN
+    [me EXCEPT !.id = "C16/http/identical_in_flight/" \o pr[1] \o "/" \o ToString(n) \o "/" \o ToString(late), !.label = "http/" \o pr[1] \o "/identical_requests_in_flight",
+               !.run.start_delay_us = late, !.extra = [expect_status |-> 200]] @@ [mix |-> [i \in 1..n |-> me.run]]
 \* C19: the same host was traced on ANOTHER port a moment ago (same process)
 C19Port(p1, p2) ==
     [C19Scen(<<"tcp", "syn", FALSE>>, 1, 3, p2, T4, "port") EXCEPT !.id = @ \o "/after_port" \o ToString(p1), !.label = @ \o "/after_other_port"]
@@ -348,6 +353,7 @@ C06ReqAll(u) == { C06Req(pr, dt[1], dt[2]) : pr \in {<<"udp", "", FALSE>>, <<"ic
 HistAll(u) == { C19Conc(l) : l \in {0, 20000, 60000} } \cup { C19Port(80, 443), C19Port(443, 80), C19Port(80, 0) }
               \cup { C01Repeat(pr) : pr \in {<<"udp", "", FALSE>>, <<"icmp", "", FALSE>>, <<"tcp", "syn", FALSE>>} }
               \cup { C19Hist(n, w) : n \in {"dual46.test", "dual64.test"}, w \in BOOLEAN } \cup { C20Hist(m) : m \in {"prefer_sack", "sack"} }
+              \cup { C16Same(pr, n, l) : pr \in {<<"udp", "", FALSE>>, <<"icmp", "", FALSE>>}, n \in {1, 3}, l \in {0, 20000} }
               \cup { C16Hist(b) : b \in {1, 40, 300} } \cup { C17Conc(pr, l) : pr \in {<<"icmp", "", FALSE>>, <<"udp", "", FALSE>>}, l \in {0, 30000, 300000} }
 
 ---------------------------------------------------------------------------
